@@ -145,6 +145,15 @@ func (pq *KeyGroupPriorityQueue) Pop() ([]byte, bool) {
 
 func (pq *KeyGroupPriorityQueue) Push(data []byte) {
 	pq.loadFromDB()
+	pq.db.Put(data, nil) // write-through cache to db
+
+	// The cache holds the smallest items of the DB. While some items are only in
+	// the DB, an item sorting after everything cached belongs with them.
+	if !pq.allDataInCache {
+		if last, ok := pq.cache.PeekLast(); !ok || bytes.Compare(data, last) > 0 {
+			return
+		}
+	}
 	pq.cache.Push(data)
 
 	// If pushing the item exceeded the cache capacity, evict items until we're back under the limit
@@ -152,8 +161,6 @@ func (pq *KeyGroupPriorityQueue) Push(data []byte) {
 		pq.cache.PopLast()
 		pq.allDataInCache = false // evicted item is now only in the DB
 	}
-
-	pq.db.Put(data, nil) // write-through cache to db
 }
 
 func (pq *KeyGroupPriorityQueue) AssignIndex(i int) {
@@ -187,16 +194,19 @@ func (pq *KeyGroupPriorityQueue) loadFromDB() {
 	prefix[2] = 0x01 // Schema byte
 
 	var err error
+	loadedAll := true
 	for entry := range pq.db.ScanPrefix(prefix, &err) {
-		pq.cache.Push(entry.Key())
-		if pq.cache.IsFull() {
+		// Stop when full but always cache the earliest item
+		if pq.cache.IsFull() && !pq.cache.IsEmpty() {
+			loadedAll = false // the remaining items stay in the DB only
 			break
 		}
+		pq.cache.Push(entry.Key())
 	}
 	if err != nil {
 		panic(err)
 	}
-	pq.allDataInCache = true
+	pq.allDataInCache = loadedAll
 }
 
 var _ ds.QueuePartition[[]byte] = &KeyGroupPriorityQueue{}
